@@ -87,14 +87,17 @@ def vocab():
     return _VOCAB
 
 
-def inl(facts, body, keep=(), **kw):
+def inl(facts, body, keep=(), force=(), **kw):
     """`body` as one unit for a rule: closures, modelled combinators, local Drop impls and helpers the rules do not
     name are spliced in (analysis.inline)."""
     from analysis.inline import inline
     v = vocab()
+    force = set(force)
     def only(cb):
         if cb.kind == "Closure":
             return True
+        if cb.npath in force or cb.npath.rsplit("::", 1)[-1] in force:
+            return True      # a link of the chain the rule follows end to end: spliced although the rules know its name
         if cb.impl_trait == "std::ops::Drop":
             # a Drop impl is known to the rules by its type, not by the method name
             return (cb.impl_of or "").rsplit("::", 1)[-1] not in v
@@ -153,10 +156,10 @@ def uncovered_roots(facts, fn, allowed):
     return sorted(bad)
 
 
-def unit(run, rid, facts, npath, keep=()):
+def unit(run, rid, facts, npath, keep=(), force=()):
     """need() + inl(): the named function as one unit (closures, combinators, unnamed helpers, local Drop spliced in)."""
     b = need(run, rid, facts, npath)
-    return inl(facts, b, keep=keep) if b is not None else None
+    return inl(facts, b, keep=keep, force=force) if b is not None else None
 
 
 def closure_with(facts, parent_npath, pred):
